@@ -153,6 +153,12 @@ type Case struct {
 type step struct {
 	block  *blockchain.Block
 	script *exh.Script
+	rot    *rotation // generator-key rotation that takes effect once this block is applied
+}
+
+type rotation struct {
+	index     int
+	pub, priv []byte
 }
 
 type world struct {
@@ -181,6 +187,9 @@ func (w *world) rebuild() {
 		n.ABI.S = s.script
 		if r := n.ProcessValidated(s.block, false); !r.OK() {
 			panic(fmt.Sprintf("rebuild: step %d rejected: %v %s", i, r.Err, r.Panic))
+		}
+		if s.rot != nil {
+			n.Vals[s.rot.index].UseGeneratorKey(s.rot.pub, s.rot.priv)
 		}
 	}
 	n.DrainEvents()
@@ -417,7 +426,7 @@ func (w *world) submit(alt string, b *blockchain.Block, s *exh.Script, resigned 
 		}
 		w.out.Put(c)
 		if len(keep) > 0 && keep[0] && r.OK() {
-			w.hist = append(w.hist, step{b, s})
+			w.hist = append(w.hist, step{block: b, script: s})
 			n.DrainEvents()
 			return true
 		}
@@ -544,6 +553,51 @@ func (w *world) alterations(valid *blockchain.Block, script *exh.Script) {
 			w.submit("aggregateCommit: genuine commit for "+c.label, b, cloneScript(script), true, false)
 		}
 	}
+	// genuine commits whose signer weight is just below / at the certificate threshold and the precommit threshold
+	{
+		_, pre, cert := n.Heights()
+		h := cert + 1
+		if params, err := n.Exec.GetBFTParameters(n.Exec.VerifC03ConsensusStore(), h); err == nil && h <= pre && n.HeaderAt(h) != nil {
+			// signer weight of the first k validators (weights may be unequal)
+			vs := params.Validators()
+			seenW := map[uint64]bool{}
+			for k := 1; k <= len(vs); k++ {
+				wsum := uint64(0)
+				for _, v := range vs[:k] {
+					wsum += v.BFTWeight()
+				}
+				label := ""
+				switch {
+				case wsum == params.CertificateThreshold():
+					label = "equal to the certificate threshold"
+				case wsum < params.CertificateThreshold() && wsum >= params.PrecommitThreshold():
+					label = "at or above the precommit threshold but below the certificate threshold"
+				case wsum < params.CertificateThreshold():
+					label = "below both thresholds"
+				case wsum > params.CertificateThreshold() && wsum < params.PrecommitThreshold():
+					label = "above the certificate threshold but below the precommit threshold"
+				default:
+					label = "above both thresholds"
+				}
+				if seenW[wsum] && k != len(vs) {
+					continue
+				}
+				seenW[wsum] = true
+				var agg *blockchain.AggregateCommit
+				func() {
+					defer func() { recover() }()
+					agg = w.aggregateBy(h, k)
+				}()
+				if agg == nil {
+					continue
+				}
+				b := cloneBlock(valid)
+				b.Header.AggregateCommit = agg
+				w.n.Sign(b.Header, gen())
+				w.submit("aggregateCommit: genuine commit with signer weight "+label, b, cloneScript(script), true, false)
+			}
+		}
+	}
 	// a block that changes the BFT parameters must carry the NEW validatorsHash
 	if len(script.NextValidators) != 0 {
 		if p, err := n.Exec.GetBFTParameters(n.Exec.VerifC03ConsensusStore(), tip.Height+1); err == nil {
@@ -560,6 +614,9 @@ func (w *world) alterations(valid *blockchain.Block, script *exh.Script) {
 		{"signature empty", func(h *blockchain.BlockHeader) { h.Signature = []byte{}; h.Init() }},
 		{"signed by other validator", func(h *blockchain.BlockHeader) { w.n.Sign(h, other) }},
 		{"signed for another chain ID", func(h *blockchain.BlockHeader) { h.Sign([]byte{9, 9, 9, 9}, gen().Priv) }},
+	}
+	if gen().OldPriv != nil {
+		sigs = append(sigs, hmut{"signed with the generator's retired key", func(h *blockchain.BlockHeader) { h.Sign(w.n.Opt.ChainID, gen().OldPriv) }})
 	}
 	for _, m := range sigs {
 		b := cloneBlock(valid)
@@ -842,15 +899,17 @@ func (w *world) randomBuild(allowChange bool) (exh.Build, *exh.Script) {
 			set = append(set, nv.Labi())
 		}
 		s.NextValidators = set
-		s.PreCommitThreshold = uint64(len(set))*2/3 + 1
-		s.CertificateThreshold = s.PreCommitThreshold
+		s.PreCommitThreshold, s.CertificateThreshold = w.thresholds(set)
 	}
 	return bo, s
 }
 
 // aggregateAt builds a genuine aggregate commit for height h, signed by every validator active at that height
 // (nil if the block or the parameters are not available).
-func (w *world) aggregateAt(h uint32) *blockchain.AggregateCommit {
+func (w *world) aggregateAt(h uint32) *blockchain.AggregateCommit { return w.aggregateBy(h, 0) }
+
+// aggregateBy: genuine commit for height h signed by the first `signers` validators active at h (0 = all of them).
+func (w *world) aggregateBy(h uint32, signers int) *blockchain.AggregateCommit {
 	n := w.n
 	hd := n.HeaderAt(h)
 	if hd == nil {
@@ -862,12 +921,14 @@ func (w *world) aggregateAt(h uint32) *blockchain.AggregateCommit {
 	}
 	commits := certificate.SingleCommits{}
 	kps := certificate.AddressKeyPairs{}
-	for _, v := range params.Validators() {
+	for i, v := range params.Validators() {
 		val := n.ValidatorByAddr(v.Address())
 		if val == nil {
 			return nil
 		}
-		commits = append(commits, certificate.NewSingleCommit(hd, val.Addr, n.Opt.ChainID, val.BLS.PrivateKey))
+		if signers == 0 || i < signers {
+			commits = append(commits, certificate.NewSingleCommit(hd, val.Addr, n.Opt.ChainID, val.BLS.PrivateKey))
+		}
 		kps = append(kps, &certificate.AddressKeyPair{Address: val.Addr, BLSKey: val.BLS.PublicKey})
 	}
 	agg, err := commits.Aggregate(kps)
@@ -913,6 +974,52 @@ func (w *world) grow(k int) bool {
 	return true
 }
 
+// rotateKey appends one valid block whose execution hands over the SAME validator list (addresses, order, weights, BLS keys,
+// thresholds) in which one validator has a new generator key. Returns that validator (nil if the block was not accepted).
+func (w *world) rotateKey() *exh.Validator {
+	n := w.n
+	bo, s := w.randomBuild(false)
+	cur := n.GeneratorAddrs()
+	params, err := n.Exec.GetBFTParameters(n.Exec.VerifC03ConsensusStore(), n.Tip().Header.Height+1)
+	if err != nil || len(cur) == 0 {
+		return nil
+	}
+	v := n.ValidatorByAddr(cur[w.r.Intn(len(cur))])
+	pub, priv := v.FreshGeneratorKey()
+	for _, a := range cur {
+		lv := n.ValidatorByAddr(a).Labi()
+		if bytes.Equal(a, v.Addr) {
+			lv.GeneratorKey = pub
+		}
+		s.NextValidators = append(s.NextValidators, lv)
+	}
+	s.PreCommitThreshold, s.CertificateThreshold = params.PrecommitThreshold(), params.CertificateThreshold()
+	n.ABI.S = s
+	b := n.NextValid(bo)
+	if !w.submit("none (valid successor rotating a generator key, history)", b, s, true, false, true) {
+		return nil
+	}
+	v.UseGeneratorKey(pub, priv)
+	w.hist[len(w.hist)-1].rot = &rotation{v.Index, pub, priv}
+	return v
+}
+
+// thresholds for a new validator set, keeping the world's relation between precommit and certificate threshold
+func (w *world) thresholds(set []*labi.Validator) (uint64, uint64) {
+	total := uint64(0)
+	for _, v := range set {
+		total += v.BFTWeight
+	}
+	lo, hi := total/3+1, total
+	switch {
+	case w.opt.PreCommit != 0 && w.opt.PreCommit < w.opt.Certificate:
+		return lo, hi
+	case w.opt.PreCommit != 0 && w.opt.PreCommit > w.opt.Certificate:
+		return hi, lo
+	}
+	return total*2/3 + 1, total*2/3 + 1
+}
+
 // changeValidators appends one valid block whose execution changes the validator set (one validator added).
 func (w *world) changeValidators() bool {
 	bo, s := w.randomBuild(false)
@@ -938,8 +1045,8 @@ func (w *world) changeValidators() bool {
 		nv = w.n.AddValidator()
 	}
 	set = append(set, nv.Labi())
-	s.NextValidators, s.PreCommitThreshold = set, uint64(len(set))*2/3+1
-	s.CertificateThreshold = s.PreCommitThreshold
+	s.NextValidators = set
+	s.PreCommitThreshold, s.CertificateThreshold = w.thresholds(set)
 	w.n.ABI.S = s
 	b := w.n.NextValid(bo)
 	return w.submit("none (valid successor changing the validator set, history)", b, s, true, false, true)
@@ -962,7 +1069,7 @@ func (w *world) tieBreak(validNew bool) {
 	if r := n.ProcessValidated(T, false); !r.OK() {
 		panic("tiebreak: T rejected")
 	}
-	w.hist = append(w.hist, step{T, s1})
+	w.hist = append(w.hist, step{block: T, script: s1})
 	// T was "received" two slots late
 	late := time.Unix(int64(n.Exec.GetSlotTime(n.Slot(T.Header.Timestamp)+2)), 0)
 	n.Exec.VerifC03SetLastBlockReceived(&late)
@@ -1024,7 +1131,7 @@ func (w *world) tieBreak(validNew bool) {
 		w.out.Put(c)
 	}
 	if bytes.Equal(n.Tip().Header.ID, T2.Header.ID) {
-		w.hist[len(w.hist)-1] = step{T2, s2}
+		w.hist[len(w.hist)-1] = step{block: T2, script: s2}
 	}
 	w.rebuild()
 }
@@ -1068,6 +1175,17 @@ func main() {
 	}()
 	for wi := 0; wi < *worlds; wi++ {
 		opt := exh.Options{N: 2 + r.Intn(4)}
+		// precommit and certificate thresholds differ in two thirds of the worlds (both orders)
+		{
+			total := uint64(opt.N)
+			lo, hi := total/3+1, total
+			switch wi % 3 {
+			case 0:
+				opt.PreCommit, opt.Certificate = lo, hi
+			case 1:
+				opt.PreCommit, opt.Certificate = hi, lo
+			}
+		}
 		if wi%3 == 2 {
 			for i := 0; i < opt.N; i++ {
 				opt.Weights = append(opt.Weights, uint64(1+r.Intn(3))) // unequal BFT weights: finality advances in jumps
@@ -1095,7 +1213,22 @@ func main() {
 					break
 				}
 			}
-			bo, s := w.randomBuild(p%2 == 1 && !w.noChange)
+			var rotated *exh.Validator
+			if p == 1 || *points == 1 {
+				rotated = w.rotateKey()
+				if rotated == nil {
+					ok = false
+					break
+				}
+				if !w.grow(r.Intn(2)) {
+					ok = false
+					break
+				}
+			}
+			bo, s := w.randomBuild(p%2 == 1 && !w.noChange && rotated == nil)
+			if rotated != nil {
+				bo.By = rotated // the successor under test is in the slot of the validator whose key was rotated
+			}
 			if len(bo.Txs) < 2 && r.Bool() {
 				bo.Txs = []*blockchain.Transaction{exh.MakeTx(r.U64()%100000, 3), exh.MakeTx(r.U64()%100000, 30)}
 				s2 := w.randomScript(w.n.Tip().Header.Height+1, 2)
@@ -1108,8 +1241,7 @@ func main() {
 				for _, a := range cur[:len(cur)-1] {
 					s.NextValidators = append(s.NextValidators, w.n.ValidatorByAddr(a).Labi())
 				}
-				s.PreCommitThreshold = uint64(len(s.NextValidators))*2/3 + 1
-				s.CertificateThreshold = s.PreCommitThreshold
+				s.PreCommitThreshold, s.CertificateThreshold = w.thresholds(s.NextValidators)
 			}
 			if len(s.BeforeEvents) == 0 {
 				s.BeforeEvents = []*blockchain.Event{exh.MakeEvent(r.U64(), w.n.Tip().Header.Height+1, 2)}
